@@ -6,11 +6,11 @@ PROP = 'C13'
 
 def run(tier, seed):
     return netcheck.run_net(PROP, tier, seed,
-        profiles=[('reify', 150, 1500, 12), ('sat', 60, 600, 25)],
+        profiles=[('reify', 150, 1500, 12), ('sat', 60, 600, 25), ('ov', 60, 600, 30)],
         rule='seeded histories of new_eq / new_conj / new_disj / new_at_most_one / new_exct_one calls (argument lists of '
              'length 0-7 with duplicates, complementary pairs, constants, root-assigned arguments, repeated requests) on the '
              'real sat_core; every emitted clause is captured by the hook and the returned literal is compared with the '
-             'formula in every model (enumeration); plus the expression cache on networks with thousands of variables (profile cache: every pair and a third of the triples of 22 plain variables for every constructor, seeded requests with negated / repeated arguments): CacheTrace requires that a literal answered for two requests stands for equivalent formulas (truth table over their variables) and that constant / argument answers are equivalent to the request; distinct_nontrivial = distinct executions containing a constructor call',
+             'formula in every model (enumeration); equality literals between object variables (profile ov: overlapping / nested / disjoint domains, variables derived from another one that share its literals) true exactly when both take the same value; plus the expression cache on networks with thousands of variables (profile cache: every pair and a third of the triples of 22 plain variables for every constructor, seeded requests with negated / repeated arguments): CacheTrace requires that a literal answered for two requests stands for equivalent formulas (truth table over their variables) and that constant / argument answers are equivalent to the request; distinct_nontrivial = distinct executions containing a constructor call',
         cache=(8, 40),
         assumptions=['at most 11 propositional variables per execution (model enumeration)',
                      'for at-most-one / exactly-one every occurrence of a repeated argument counts (the truth table of the RIDDLE operator)'])
